@@ -4,8 +4,8 @@ LEVEL = "model_checking"
 TECHNIQUE = "CBMC bounded symbolic execution of the real timer code: inductive step obligations from symbolic pre-states under a representation invariant (min-heap, expiry, persist re-arm, deadline computation, common-timeout queue) plus concrete-shape runs through event_base_loop on a constructed base with a virtual clock"
 UNITS = ["event.c", "minheap-internal.h", "evmap.c"]
 FUNCTIONS = ['min_heap_push_', 'min_heap_pop_', 'min_heap_erase_', 'min_heap_adjust_', 'min_heap_shift_up_', 'min_heap_shift_up_unconditional_', 'min_heap_shift_down_', 'min_heap_top_', 'min_heap_elt_is_top_', 'event_add', 'event_add_nolock_', 'event_pending', 'timeout_next', 'timeout_process', 'event_del_nolock_', 'event_active_nolock_', 'event_queue_insert_timeout', 'event_queue_remove_timeout', 'event_persist_closure', 'gettime']
-BOUNDS = '(a) ANY valid min-heap of n<=6 (thorough 7) elements, n enumerated, deadlines: tv_sec any 64-bit value, tv_usec<10^6; one operation with solver-chosen victim/new deadline.  (b)(d) one event; now, timeout, previous deadline, interval: tv_sec<2^31, tv_usec<10^6, all solver-chosen.  (c) ANY valid heap of n<=3 (thorough 4) pending one-shot timers of one priority, solver-chosen deadlines and now.'
-OUT = 'common-timeout queues (e) and multi-operation histories through event_base_loop (f) are not encoded yet; heaps > 7; timers that are also I/O events in the expiry step; several priorities in the expiry step; evutil_time.c (the clock is the virtual clock vp_now); tv_usec >= 10^6 inputs; heap growth (realloc) - capacity is pre-reserved'
+BOUNDS = '(a) ANY valid min-heap of n<=6 (thorough 7) elements, n enumerated, deadlines: tv_sec any 64-bit value, tv_usec<10^6; one operation with solver-chosen victim/new deadline.  (b)(d) one event; now, timeout, previous deadline, interval: tv_sec<2^31, tv_usec<10^6, all solver-chosen.  (c) ANY valid heap of n<=3 (thorough 4) pending one-shot timers of one priority, solver-chosen deadlines and now.  (f) a one-shot and a persistent timer through the real event_base_loop: 4 (thorough 13) fixed call prefixes of length 2-3 from {add 0/1/2 s, del, remove_timer, loop with clock +0/+2 s} followed by ANY one of 26 calls, durations from {0,1 s,2 s}.'
+OUT = '(e) common-timeout queues: not decided - struct event keeps {min_heap_idx, ev_next_with_common_timeout} in a union and cbmc does not fold reads after both members were written (symex does not terminate: measured); the model/harness support exists (K_CTIMER).  Histories longer than 4 calls and symbolic durations through the loop (covered only by the inductive steps); heaps > 7; timers that are also I/O events in the expiry step; several priorities in the expiry step; evutil_time.c (the clock is the virtual clock vp_now); tv_usec >= 10^6 inputs; heap growth (realloc) - capacity is pre-reserved'
 TEXT = "Inductive step obligations on the real code: (a) every min-heap operation preserves heap order, index consistency and membership and keeps the minimum on top, from ANY valid heap; (b) event_add computes deadline == now+timeout (normalised) / the absolute time, the timer is pending, event_pending reports it, the loop's wait is max(0,deadline-now); (c) from ANY valid heap and any clock value timeout_process activates exactly the timers with deadline<=now (never early, never late), each once, in non-decreasing deadline order, leaves the rest pending in a valid heap, and timeout_next returns exactly max(0, earliest-now); (d) event_persist_closure re-arms at previous deadline+interval, or now+interval when that is past or the activation was not a timeout, exactly once.  Induction over loop iterations gives the unbounded claim for heap timers within the value bounds."
 NOTE = "Typed distinct event objects (not arrays, not realloc'ed memory) keep heap-slot pointers a small case split. The common-timeout branches are cut with assert(false);assume(false) in get_common_timeout_list: the solver proves they are never entered by non-common timers. Reference arithmetic on timevals uses carry arithmetic (no 64-bit multiplications)."
 ASSUMPTIONS = ['heap representation invariant: p[i]->min_heap_idx==i and !(parent>child) (the one event_base_assert_ok_nolock_ checks)', 'expiry pre-state: timers are EVLIST_INIT|EVLIST_TIMEOUT one-shot non-I/O events of priority 0, event_count==n', 'monotonic clock = vp_now (evutil_gettime_monotonic_ stub), gettimeofday = constant', 'constructed event_base (env/evbase.h)', 'allocation does not fail']
@@ -25,7 +25,7 @@ def _heap(n, N, ops=None):
         defs.append("C01_OPFIX=%d" % ops); name += "_op%d" % ops
     return _fin(dict(name=name, harness="C01_minheap.c", entry="harness_minheap_step", defines=defs,
                 unwind=N + 3, unwindset=["min_heap_shift_down_.0:%d" % lg, "min_heap_shift_up_.0:%d" % lg, "min_heap_shift_up_unconditional_.0:%d" % lg],
-                timeout=900, mem_gb=4,
+                timeout=900 if N <= 6 else 2400, mem_gb=4 if N <= 6 else 8,
                 desc="(a) min-heap inductive step: ANY valid heap of %d elements (capacity %d), fully symbolic deadlines; push/pop/erase(any victim)/adjust(any victim, any new deadline): invariant, membership, top=min" % (n, N)))
 
 # Timers of these obligations are never common-timeout timers (usec < 10^6 has no magic bits), but symex
@@ -42,14 +42,45 @@ def _tm(name, entry, desc, defines=(), unwind=6, heap=3, **kw):
     d.update(kw)
     return _fin(d)
 
+# (e) common-timeout queues: the C02 history harness with both events using event_base_init_common_timeout
+# durations (1 s and 2 s queues); the reference model treats them as ordinary timers plus FIFO order inside one queue.
+_PIN_HIST = [sum([["--restrict-function-pointer", x] for x in (
+    "event_base_loop.function_pointer_call.7/vp_be_dispatch",
+    "event_persist_closure.function_pointer_call.2/cb",
+    "event_process_active_single_queue.function_pointer_call.2/cb,common_timeout_callback",
+    "event_signal_closure.function_pointer_call.2/cb")], []) + ["--remove-function-body", "evmap_check_integrity_"],
+    ["--generate-function-body", "evmap_check_integrity_", "--generate-function-body-options", "nondet-return"]]
+
+def _common(prefix, kinds=("K_CTIMER", "K_CTIMER"), tag="common", expect_cb=True):
+    L = len(prefix) + 1
+    return _fin(dict(name="%s_%s_pre%s" % (tag, "_".join(k[2:].lower() for k in kinds), "_".join(str(x) for x in prefix)),
+                harness="C02_statemachine.c", entry="harness_history",
+                defines=["C02_KIND0=" + kinds[0], "C02_KIND1=" + kinds[1], "C02_LEN=%d" % L, "C02_PREFIX=" + ",".join(str(x) for x in prefix)] + (["C02_EXPECT_CB"] if expect_cb else []),
+                unwind=10, unwindset=["run:%d" % (L + 2)], instrument=_PIN_HIST, timeout=900, mem_gb=2, cbmc=["--object-bits", "12", "--no-standard-checks"],
+                desc="(e) common-timeout timers (%s): history %s (1/2 = add 1 s/2 s on event 0, 13/14 on event 1, 3/15 del, 24/25 loop +0/+2 s) then ANY call, vs the reference model: fires once at the deadline, FIFO within a queue, cancel/replace, internal timer re-armed (event_base_assert_ok_nolock_ live)" % ("+".join(kinds), list(prefix))))
+
 def obligations(tier):
     N = 6 if tier == "quick" else 7
     obs = [_heap(n, N) for n in range(0, N + 1)]
     obs.append(_tm("deadline", "harness_deadline", "(b) event_add relative/absolute, persistent or not, now/timeout any sec<2^31, usec<10^6: deadline == now+tv normalised, pending in heap, event_pending reports it on the wall clock, wait == max(0,deadline-now)"))
     for n in range(0, 4 if tier == "quick" else 5):
         obs.append(_tm("expiry_n%d" % n, "harness_expiry", "(c) timeout_next+timeout_process from ANY valid heap of %d timers, any now: activated == {deadline<=now}, each once, order non-decreasing, rest pending, heap valid, wait exact" % n,
-                       defines=["C01_NH=%d" % n], unwind=n + 3, mem_gb=4 if n >= 3 else 2))
+                       defines=["C01_NH=%d" % n], unwind=n + 3, mem_gb=(8 if n >= 4 else 4) if n >= 3 else 2, timeout=2400 if n >= 4 else 900))
     for bt in (1, 0):
         obs.append(_tm("persist_%s" % ("timeout" if bt else "other"), "harness_persist", "(d) event_persist_closure re-arm: prev deadline, interval, now symbolic; activation by %s" % ("EV_TIMEOUT" if bt else "another result while the timer is pending"),
                        defines=["C01_BY_TIMEOUT=%d" % bt]))
+    # (f) histories through the real event_base_loop: a one-shot timer (event 0: 1 = add 0 s, 2 = add 1 s, 3 del, 9 remove_timer) and a
+    # persistent timer (event 1: 13 = add 1 s, 14 = add 2 s, 15 del, 21 remove_timer), 24/25 = loop iteration with the clock +0/+2 s;
+    # the listed calls, then ANY call (26 alternatives, solver-chosen), compared with the reference model after every call:
+    # a callback runs exactly once iff its deadline <= clock at an iteration and it was not cancelled/replaced; persist re-arms.
+    shapes = [((2, 14), True), ((2, 25), False), ((14, 25), True), ((2, 2), True)] if tier == "quick" else \
+             [((2, 14), True), ((2, 25), False), ((14, 25), True), ((2, 2), True), ((2, 3), False), ((2, 9), False), ((14, 21), False),
+              ((14, 14), True), ((1, 24), False), ((2, 14, 25), True), ((14, 25, 25), True), ((2, 14, 15), True), ((13, 25, 14), True)]
+    for (pre, ecb) in shapes:
+        o = _common(pre, kinds=("K_TIMER", "K_TIMER_P"), tag="shape", expect_cb=ecb)
+        o["desc"] = "(f) real event_base_loop histories over a one-shot and a persistent timer: calls %s then ANY call vs the reference model (fires exactly once iff due and not cancelled/replaced; persist re-arm; counters; assert_ok live)" % (list(pre),)
+        obs.append(o)
+    # (e) common-timeout histories (_common) are NOT scheduled: struct event keeps {min_heap_idx, ev_next_with_common_timeout}
+    # in a union; after event_assign wrote the first and the queue insert the second member, cbmc's simplifier no longer folds
+    # reads of the list links and symex does not terminate (measured: 4 x 320 s, no result).  See OUT.
     return obs
